@@ -35,6 +35,58 @@ func checkC20(p *Program, r *Reporter) {
 	inc := p.mustFunc(r, pkgApp, "(*IPRequestLimiter).Inc")
 	if inc != nil {
 		e.ruleAtomicSection(r, "E2-ATOMIC", inc, "app.IPRequestLimiter")
+		intervalRule(p, r, inc)
+	}
+}
+
+// intervalRule: the interval restarts at the instant of the request that finds it elapsed, and only then:
+// every store to ResetTime made while serving depends on the request's time, and the counters are replaced
+// only under a test that depends on the request's time, the reset time and the interval length.
+func intervalRule(p *Program, r *Reporter, inc *ssa.Function) {
+	r.Rule("E4-RESTART", "a new interval starts at the request's time, and the counters restart only under the interval-elapsed test", 2)
+	var nowPrm *ssa.Parameter
+	for _, prm := range inc.Params {
+		if strings.HasSuffix(prm.Type().String(), "time.Time") {
+			nowPrm = prm
+		}
+	}
+	if nowPrm == nil {
+		r.Broken("Inc has no time parameter")
+		return
+	}
+	nReset, nCounters := 0, 0
+	for _, fn := range cluster(inc) {
+		for _, b := range fn.Blocks {
+			for _, in := range b.Instrs {
+				st, ok := in.(*ssa.Store)
+				if !ok {
+					continue
+				}
+				f, ok := fieldOfAddr(st.Addr)
+				if !ok {
+					continue
+				}
+				switch f {
+				case "app.IPRequestLimiter.ResetTime":
+					nReset++
+					r.Decide(localDependsOnParam(p, st.Val, nowPrm), "E4-RESTART", shortFn(fn), "store:ResetTime", p.pos(st.Pos()), "the new interval starts at the request's time",
+						"the start of the new interval does not depend on the time of the request that restarts it: after a quiet period the reset time stays in the past and every request restarts the counters", nil)
+				case "app.IPRequestLimiter.Counters":
+					nCounters++
+					okDep := false
+					for _, cd := range effectiveCDeps(b, true) {
+						if localDependsOnParam(p, cd.V, nowPrm) && valueDependsOnField(p, cd.V, "app.IPRequestLimiter.ResetTime") && valueDependsOnField(p, cd.V, "app.IPRequestLimiter.Interval") {
+							okDep = true
+						}
+					}
+					r.Decide(okDep, "E4-RESTART", shortFn(fn), "store:Counters", p.pos(st.Pos()), "counters are replaced only under a test of request time, reset time and interval",
+						"the counters are replaced on a path that is not decided by a comparison of the request time with reset time + interval", nil)
+				}
+			}
+		}
+	}
+	if nReset == 0 || nCounters == 0 {
+		r.Broken("Inc: no store to ResetTime (%d) or Counters (%d) found", nReset, nCounters)
 	}
 }
 
